@@ -1,0 +1,33 @@
+//go:build verif
+// +build verif
+
+package cmd
+
+import "sort"
+
+// VerifFsmTable is one entry of the automata registry as it is at run
+// time: Key is what `expects` looks up.
+type VerifFsmTable struct {
+	Key    string
+	Name   string
+	Start  int
+	States []string
+	Labels []string
+	Edges  [][]int
+}
+
+// VerifAutomataTables dumps the registry of predefined automata, sorted by key.
+func VerifAutomataTables() []VerifFsmTable {
+	var r []VerifFsmTable
+	for k, f := range automata {
+		t := VerifFsmTable{Key: k, Name: f.name, Start: f.startState}
+		t.States = append(t.States, f.stateNames...)
+		t.Labels = append(t.Labels, f.labels...)
+		for _, row := range f.edges {
+			t.Edges = append(t.Edges, append([]int(nil), row...))
+		}
+		r = append(r, t)
+	}
+	sort.Slice(r, func(i, j int) bool { return r[i].Key < r[j].Key })
+	return r
+}
